@@ -91,11 +91,20 @@ type ConnectionConfig struct {
 	RequiredFeatures graphql.FeatureSet
 }
 
+// MaxCursorLength is the maximum length of a serialized cursor. Cursors are meant to be small
+// opaque tokens. The msgpack decoder recurses once per nesting level of its input, so without a
+// bound a client could exhaust the goroutine stack (which is fatal to the process) by sending a
+// few megabytes of nested array headers as the cursor of a connection with struct cursors.
+const MaxCursorLength = 1 << 16
+
 // SerializeCursor serializes a cursor to a string that can be used in a response.
 func SerializeCursor(cursor any) (string, error) {
 	b, err := msgpack.Marshal(cursor)
 	if err != nil {
 		return "", err
+	}
+	if base64.RawURLEncoding.EncodedLen(len(b)) > MaxCursorLength {
+		return "", fmt.Errorf("cursor too long")
 	}
 	return base64.RawURLEncoding.EncodeToString(b), nil
 }
@@ -103,6 +112,9 @@ func SerializeCursor(cursor any) (string, error) {
 // DeserializeCursor deserializes a cursor that was previously serialized with SerializeCursor or
 // returns nil if the cursor is invalid.
 func DeserializeCursor(t reflect.Type, s string) any {
+	if len(s) > MaxCursorLength {
+		return nil
+	}
 	ret := reflect.New(t)
 	if b, err := base64.RawURLEncoding.DecodeString(s); err == nil {
 		if err := msgpack.Unmarshal(b, ret.Interface()); err == nil {
